@@ -21,12 +21,13 @@ EnvCases == {[k |-> k, gomaxprocs |-> 0, envgmp |-> g, reps |-> 1, fresh |-> FAL
 Kinds == {<<"serde">>, <<"serde", "transcript", "codec">>, <<"bigbatch">>, <<"msm", "commit">>, <<"codec", "batch">>, <<"transcript", "poly">>, <<"prove">>, <<"ipa">>, <<"bigprove">>}
 Stress == {[k |-> 16, gomaxprocs |-> g, envgmp |-> 0, reps |-> (IF m \in {<<"prove">>, <<"ipa">>, <<"bigprove">>} THEN (IF Tier = "quick" THEN 6 ELSE 40) ELSE IF Tier = "quick" THEN 200 ELSE 1500), fresh |-> FALSE, calls |-> m] :
              g \in (IF Tier = "quick" THEN {4} ELSE {1, 2, 4, 16}), m \in Kinds}
+(* (dividez is cheap: 120 first-use positions per program make the detection of a first-use race robust on a loaded machine) *)
 (* first uses: a configuration created for the program, the concurrent pass FIRST, every goroutine starting each position at the same moment on an
    index / point that no earlier position used (lazily built state is built under contention) *)
 Z20(op) == [i \in 1 .. 20 |-> op]
 FreshCases == {[k |-> k, gomaxprocs |-> g, envgmp |-> 0, reps |-> 1, fresh |-> TRUE, calls |-> m] :
                  k \in (IF Tier = "quick" THEN {3, 12} ELSE {3, 4, 8, 12, 32}), g \in (IF Tier = "quick" THEN {4, 16} ELSE {2, 4, 16}),
-                 m \in {Z20("dividez"), Z20("provez"), <<"ipaz", "commit", "msm", "provez", "dividez", "ipaz", "batch", "codec", "provez", "dividez">>}}
+                 m \in {[i \in 1 .. 120 |-> "dividez"], Z20("provez"), <<"ipaz", "commit", "msm", "provez", "dividez", "ipaz", "batch", "codec", "provez", "dividez">>}}
 Cases == Base \cup Many \cup EnvCases \cup Stress \cup FreshCases
 VARIABLE done
 Init == done = FALSE
